@@ -28,6 +28,9 @@ theorem C13_ops_have_allowed_shape :
 theorem C13_all_ops_traced : ∀ op, op < 11 → ∃ e ∈ Yow.Gen.storeOps, e.1 = op := by
   decide
 
+/-- … and the store of the current source has no public writing method besides the traced ones. -/
+theorem C13_no_untraced_writer : Yow.Gen.untracedWriters = [] := by decide
+
 theorem storeOp_singleTx (e : Nat × Nat × List Sk) (he : e ∈ Yow.Gen.storeOps) : SingleTx e.2.2 = true := by
   obtain ⟨kd, _, h⟩ := C13_ops_have_allowed_shape e he
   exact allowed_singleTx kd e.2.2 h
